@@ -1,6 +1,6 @@
 (* C15 — introspection is faithful; a token is active only if the server said so.
    Statements only; proofs in proofs/Serde_proofs.v. *)
-From OA Require Import Bytes Json Json_proofs Serde SerdeSpec Serde_proofs Responses_proofs.
+From OA Require Import Bytes Json Json_proofs Lower Serde SerdeSpec Serde_proofs Responses_proofs.
 From Coq Require Import ZArith Permutation.
 Local Open Scope Z_scope.
 
@@ -43,7 +43,7 @@ Section C15.
       (forall s, find_key (s2b "iss") m = Some (JStr s true) -> ir_iss r = Some s) /\
       (forall s, find_key (s2b "jti") m = Some (JStr s true) -> ir_jti r = Some s) /\
       (forall s, find_key (s2b "token_type") m = Some (JStr s true) ->
-                 ir_token_type r = Some (token_type_from_str (lower s))) /\
+                 ir_token_type r = Some (token_type_from_str (lower_tt s))) /\
       (forall z, find_key (s2b "exp") m = Some (JInt z) -> ir_exp r = Some z /\ (TS_MIN <= z <= TS_MAX)) /\
       (forall z, find_key (s2b "iat") m = Some (JInt z) -> ir_iat r = Some z) /\
       (forall z, find_key (s2b "nbf") m = Some (JInt z) -> ir_nbf r = Some z) /\
